@@ -43,6 +43,8 @@ class _Comm(object):
         self.timeout = 120.0
         self.hooks = []          # callables (kind, sent_object, received_object)
         self.n_exchanges = 0
+        self.epoch = 0           # set by the worker to the number of the case it runs: the hub never matches
+                                 # collectives of different cases with each other
 
     # -- wiring (called by harness/fx_mpi.py in the worker)
     def _attach(self, rank, size, conn, timeout):
@@ -61,7 +63,7 @@ class _Comm(object):
     def _coll(self, kind, obj, root=0):
         if self.conn is None:
             raise Exchange('communicator double is not attached to a hub')
-        self.conn.send(('coll', kind, obj, root))          # pickled
+        self.conn.send(('coll', kind, obj, root, self.epoch))          # pickled
         if not self.conn.poll(self.timeout):
             raise Exchange('rank %d: no reply to %s within %ss' % (self.rank, kind, self.timeout))
         msg = self.conn.recv()                              # unpickled
